@@ -111,6 +111,11 @@ def h_replace_with(ctx):
         nonlocal n
         n += 1
         return forms[n % len(forms)](vrs)
+
+    def refusal_ok():
+        # a loud refusal (TypeError / ValueError) of a one-shot iterable or a dict view is not
+        # a wrong result; lists, tuples and sets must be accepted
+        return (lambda e: isinstance(e, (TypeError, ValueError))) if n % len(forms) in (2, 4, 5) else None
     for k in range(1, len(flex) + 1):
         for vrs in itertools.combinations(flex, k):
             vrs = list(vrs)
@@ -119,17 +124,17 @@ def h_replace_with(ctx):
             u = w.pred(f'U_{"_".join(vrs)}',
                        [b for b in w.groups(w.ACTION) if b not in pbits])
             tu = w.term(u)
-            r = ctx.call(rwp, aut, arg(vrs), u, label='replace_with_primed')
+            r = ctx.call(rwp, aut, arg(vrs), u, label='replace_with_primed', allowed=refusal_ok())
             want = spec.subst(tu, [(w.z(b), w.z(bp)) for b, bp in zip(bits, pbits)])
             w.oblige(f'replace_with_primed({vrs}).post: exactly the listed variables are renamed to their primed copies',
                      spec.equiv(w, w.term(r), want))
             v = w.pred(f'V_{"_".join(vrs)}',
                        [b for b in w.groups(w.ACTION) if b not in bits])
-            r2 = ctx.call(rwu, aut, arg(vrs), v, label='replace_with_unprimed')
+            r2 = ctx.call(rwu, aut, arg(vrs), v, label='replace_with_unprimed', allowed=refusal_ok())
             want2 = spec.subst(w.term(v), [(w.z(bp), w.z(b)) for b, bp in zip(bits, pbits)])
             w.oblige(f'replace_with_unprimed({vrs}).post: exactly the listed primed variables are renamed to unprimed',
                      spec.equiv(w, w.term(r2), want2))
-            r3 = ctx.call(rwu, aut, arg(vrs), r, label='replace_with_unprimed')
+            r3 = ctx.call(rwu, aut, arg(vrs), r, label='replace_with_unprimed', allowed=refusal_ok())
             w.oblige(f'replace_with_unprimed(replace_with_primed(u)) == u   ({vrs})',
                      spec.equiv(w, w.term(r3), tu))
     w.canary('replace_with canary', spec.equiv(w, w.term(r), tu))
